@@ -50,9 +50,14 @@ StoreWithout(c) ==
 PendAlive(s, pd) ==   \* offers die with the offering entry
     [k \in {k \in DOMAIN pd : k[1] \in DOMAIN s /\ k[2] \in DOMAIN s[k[1]]} |-> pd[k]]
 
+(* closed_calls (the ConnectionClosed contents) are logged by the API-level executor only; *)
+(* end-to-end traces of running trackers do not observe them                               *)
+Calls(e) == IF "closed_calls" \in DOMAIN e THEN e.closed_calls ELSE <<"unobserved">>
+
 CloseEffects(c, calls) ==
-    /\ {<<x[1], x[2]>> : x \in SeqRange(calls)} = {<<h, Ann(c)[h]>> : h \in DOMAIN Ann(c)}
-    /\ Len(calls) = Cardinality(DOMAIN Ann(c))
+    /\ calls # <<"unobserved">> =>
+         /\ {<<x[1], x[2]>> : x \in SeqRange(calls)} = {<<h, Ann(c)[h]>> : h \in DOMAIN Ann(c)}
+         /\ Len(calls) = Cardinality(DOMAIN Ann(c))
     /\ store' = StoreWithout(c)
     /\ pend' = PendAlive(StoreWithout(c), pend)
     /\ ann' = FnDel(ann, c)
@@ -71,7 +76,7 @@ Announce ==
           THEN \* a second peer id for the torrent is refused; the connection ends
                /\ E.refused
                /\ Len(out) = 1 /\ out[1].kind = "error" /\ <<out[1].to[1], out[1].to[2]>> = c
-               /\ CloseEffects(c, E.closed_calls)
+               /\ CloseEffects(c, Calls(E))
           ELSE
           /\ ~E.refused
           /\ ann' = FnPut(ann, c, IF E.event = "stopped" THEN FnDel(Ann(c), E.h)
@@ -129,8 +134,11 @@ Scrape ==
     /\ IsEvent("scrape")
     /\ LET c == <<E.c[1], E.c[2]>>
            asked == SeqRange(FirstN(E.hs, cfg.max_scrape))
-       IN /\ Len(E.out) = 1 /\ E.out[1].kind = "scrape" /\ <<E.out[1].to[1], E.out[1].to[2]>> = c
-          /\ LET files == E.out[1].files IN
+       IN /\ Len(E.out) = 1 /\ <<E.out[1].to[1], E.out[1].to[2]>> = c
+          \* a scrape with no hashes gets one reply too: an empty scrape reply or an error
+          /\ E.out[1].kind = "scrape" \/ (E.hs = <<>> /\ E.out[1].kind = "error")
+          /\ E.out[1].kind = "scrape" =>
+             LET files == E.out[1].files IN
              \* every requested torrent with stored peers is listed with its counts;
              \* nothing else carries a non-zero count; only requested hashes appear
              /\ \A i, j \in 1..Len(files) : files[i][1] = files[j][1] => i = j
@@ -144,7 +152,7 @@ Scrape ==
 
 Close ==
     /\ IsEvent("close")
-    /\ CloseEffects(<<E.c[1], E.c[2]>>, E.closed_calls)
+    /\ CloseEffects(<<E.c[1], E.c[2]>>, Calls(E))
     /\ UNCHANGED <<cfg, list>>
 
 Clean ==
